@@ -1,6 +1,6 @@
 """C20 - schema paths match instance paths; partial decoding equals the full result.
 
-For every document of a bounded, completely enumerated set (all valid instances of 12 generated schema
+For every document of a bounded, completely enumerated set (all valid instances of 14 generated schema
 templates x namespace variants up to a node bound, single-fault variants of the small ones, the
 vehicles / collection example files) and for EVERY element of it, every path form of the element
 (absolute with / without positional predicates, one `*` step at every position, //name, /root//name,
@@ -30,9 +30,10 @@ from mc.gen import docs_c20 as g
 ID = 'C20'
 TITLE = 'Schema paths match instance paths; partial decoding equals the full result'
 RULE = ('every valid instance (<= N elements; leaf and attribute values rotate through a small catalogue) of every '
-        'generated schema (12 templates: local declarations, references, substitution members, one local name with '
+        'generated schema (14 templates: local declarations, references, substitution members, one local name with '
         'different types under different parents, a local name equal to a global one, a named type shared by two '
-        'parents, nested same name, duplicate name in one model, simple content with attributes, identity constraints) '
+        'parents, nested same name, duplicate name in one model, simple content with attributes, identity constraints, '
+        'xs:unique / xs:key owned by a repeated element with duplicates in its 1st, 2nd, 3rd instance) '
         'in no-namespace / qualified (prefixed and default-namespace documents) / unqualified-local variants + every '
         'single-fault variant (bad value, bad attribute, unknown child, unknown attribute, dropped leaf at every node) '
         'of the instances <= Nf elements + the vehicles / collection example files; x every element x every path form '
@@ -42,7 +43,9 @@ RULE = ('every valid instance (<= N elements; leaf and attribute values rotate t
         'x max_depth in {0,1,2,3,None} (whole document, and combined with the own positional path); one evaluation = '
         'one (document, path, spelling, API) comparison; non-trivial = new (schema, path without positions, spelling, '
         'API group, selected governing declarations / expected error signature); discrepancy keys name schema, API, '
-        'path shape, spelling and the kind of wrong result, the document is the recorded witness')
+        'path shape, spelling and the kind of wrong result, the document is the recorded witness; additionally every '
+        'small qualified document is processed back-to-back, in both orders, with its twin in a second target namespace '
+        '(same prefix / default-namespace spelling, same path strings), each judged against its own whole-document result')
 ASSUMPTIONS = [
     'the governing declaration of an element is the one passed to extra_validator during a whole-document '
     'iter_errors() run; for generated documents it must also carry the XSD id the generator built the element from',
@@ -53,7 +56,9 @@ ASSUMPTIONS = [
     'for paths selecting several elements findall() must cover the governing declarations of all of them; whether it '
     'selects more (declarations not instantiated in the document) and whether find() is one of them is only counted',
     'errors are compared as multisets of (class, reason, element) and must carry the same path string; errors raised '
-    'by identity constraints (document-wide) are skipped and counted on both sides',
+    'by identity constraints are judged only where the statement clearly applies (templates uniq/keyd: an owner instance '
+    'is an ancestor-or-self of every selected element and every element its selector reaches lies in the selected '
+    'subtrees); otherwise, and for xs:ID/IDREF, they are skipped and counted on both sides',
     'namespace declarations (@xmlns...) that converters attach to the outermost decoded element are stripped on both sides',
     'max_depth=k on a whole document keeps elements of depth <= k (root = 1) with their attributes, simple content '
     'and content-model errors (tests/validation/test_decoding.py::test_max_depth_argument); k=0 may equal k=1; '
@@ -65,8 +70,8 @@ BUDGET_S = {'quick': 900, 'thorough': 3600}
 DEPTHS = (0, 1, 2, 3)
 
 TIERS = {      # N: valid documents complete up to N elements, N+1 sliced in quick; Nf likewise for faulty documents
-    'quick': {'N': 11, 'Nf': 5, 'rots': (0,), 'K': 4},
-    'thorough': {'N': 15, 'Nf': 7, 'rots': (0, 1), 'K': 1},      # N = 15 exhausts the (finite) instance set of every template
+    'quick': {'N': 11, 'Nf': 5, 'rots': (0,), 'K': 4, 'Np': 7},
+    'thorough': {'N': 15, 'Nf': 7, 'rots': (0, 1), 'K': 1, 'Np': 10},      # N = 15 exhausts the (finite) instance set of every template
 }
 
 
@@ -142,10 +147,30 @@ def _documents(name, tier, seed):
                     bad = g.apply_fault(root, fault)
                     out.append({'docid': '%s:%s:r%d:%s@%d' % (form, text, rot, fault[0], fault[1]),
                                 'xml': g.serialise(bad, variant, form), 'govs': None, 'valid': False, 'size': size})
+            if rot == 0 and tpl.identities:
+                # identity faults at every size: the duplicate sits in the first, second, third owner in turn
+                form = g.doc_forms(variant)[0]
+                for fault in g.dup_faults(root, {m['target'] for m in tpl.identities}):
+                    bad = g.apply_fault(root, fault)
+                    out.append({'docid': '%s:%s:r%d:%s@%d' % (form, text, rot, fault[0], fault[1]),
+                                'xml': g.serialise(bad, variant, form), 'govs': None, 'valid': False, 'size': size})
     return out
 
 
 CHUNK = 12          # documents per shard
+
+
+def pair_documents(tname, tier, seed):
+    """documents of the qualified variant that are also processed back-to-back with their twin in the second
+    target namespace (same prefix, same default-namespace spelling): valid ones up to Np elements and the
+    bad-value / bad-attribute fault variants (non-empty error lists)"""
+    cfg = TIERS[tier]
+    return [d for d in documents(tname + '.q', tier, seed)
+            if (d['valid'] and d['size'] <= cfg['Np']) or ':badval@' in d['docid'] or ':badattr@' in d['docid']]
+
+
+def pair_templates():
+    return [t.name for t in g.templates() if 'q' in t.variants]
 
 
 def shards(tier, seed):
@@ -155,6 +180,10 @@ def shards(tier, seed):
         step = 2 if name in g.CORPUS else CHUNK
         for lo in range(0, n, step):
             out.append((tier, seed, name, lo, min(lo + step, n)))
+    for tname in pair_templates():
+        n = len(pair_documents(tname, tier, seed))
+        for lo in range(0, n, 2 * CHUNK):
+            out.append((tier, seed, 'PAIR:' + tname, lo, min(lo + 2 * CHUNK, n)))
     return out
 
 
@@ -166,6 +195,7 @@ def bounds(tier, seed):
                        cfg['Nf'], ' + the same slice of %d' % (cfg['Nf'] + 1) if cfg['K'] > 1 else ''),
             'deviations': 'faults <= 1 per document; value rotations %s; max_depth in %s + None'
                           % (list(cfg['rots']), list(DEPTHS)),
+            'twins': 'qualified documents <= %d elements and all bad-value variants, x their twin in %s, both orders' % (cfg['Np'], g.TNS2),
             'instance_sets_exhausted': cfg['N'] >= 15,     # every template has finitely many instances, all <= 15 elements
             'schemas': schema_names()}
 
@@ -207,6 +237,9 @@ _PREFIX = re.compile(r'(?<![\w:])[A-Za-z_][\w.-]*:(?=[A-Za-z_])')
 
 def tkind(got, want):
     return '%s-for-%s' % (type(got).__name__, type(want).__name__)
+
+
+_IDENT_NAME = re.compile(r"Xsd\w+\(name='(?:[\w.-]+:)?([\w.-]+)'")
 
 
 class Nav(Exception):
@@ -388,7 +421,48 @@ def analyse(name, doc):
     plain = [e for e in full_errors if not is_identity_error(e)]
     st.counters['identity_errors_skipped'] += len(full_errors) - len(plain)
     full_sigs = [errsig(e) for e in plain]
-    full_paths = {errsig(e): e.path for e in plain}
+    full_paths = {errsig(e): e.path for e in full_errors}
+    metas = {m['name']: m for m in (g.TEMPLATES[name.split('.')[0]].identities if name not in g.CORPUS else ())}
+
+    def ident_meta(e):
+        m = _IDENT_NAME.search(e.reason or '')
+        return metas.get(m.group(1)) if m else None
+
+    applicable_memo = {}
+
+    def applicable(meta, sel):
+        """the statement clearly applies to this identity constraint under this selection: an owner instance is an
+        ancestor-or-self of every selected element and everything its selector reaches lies in the selected subtrees"""
+        key = (meta['name'], tuple(sel))
+        if key not in applicable_memo:
+            ok, owners = True, {}
+            for i in sel:
+                n = nodes[i]
+                while n is not None and n.local != meta['owner']:
+                    n = n.parent
+                if n is None:
+                    ok = False
+                    break
+                owners[n.i] = n
+            for o in owners.values():
+                for t in o.kids:
+                    if t.local == meta['target'] and not any(nodes[i].i <= t.i < nodes[i].end for i in sel):
+                        ok = False
+            applicable_memo[key] = ok
+        return applicable_memo[key]
+
+    def judged(errors, sel):
+        """errors that are compared: all but the identity errors the statement does not clearly cover"""
+        out = []
+        for e in errors:
+            if is_identity_error(e):
+                meta = ident_meta(e)
+                if meta is None or not applicable(meta, sel):
+                    continue
+            out.append(e)
+        return out
+
+    full_ident = [e for e in full_errors if is_identity_error(e)]
     valid = not full_errors
     if doc['valid'] and not valid:
         st.counters['generated_valid_document_rejected_by_library'] += 1
@@ -464,7 +538,12 @@ def analyse(name, doc):
         if any(governing.get(i) is None for i in sel):
             st.counters['path selects an element no declaration governed in the whole-document run: skipped'] += 1
             return
-        exp = subtree_sigs(sel, full_sigs)
+        exp_ident = [errsig(e) for e in judged(full_ident, sel)]
+        exp = subtree_sigs(sel, full_sigs + exp_ident)
+        unjudged_exp = sum(subtree_sigs(sel, [errsig(e) for e in full_ident]).values()) - \
+            sum(subtree_sigs(sel, exp_ident).values())
+        if exp_ident:
+            st.counters['identity errors judged in a path-restricted run'] += 1
         st.nts.add('%s|%s|%s|partial|%s' % (name, shape, flabel, sorted((a, b) for a, b, _ in exp)))
         part_gov = {}
 
@@ -481,7 +560,7 @@ def analyse(name, doc):
             st.outcomes['partial-errors:exception'] += 1
             perrs = pvalid = None
         if perrs is not None:
-            pplain = [e for e in perrs if not is_identity_error(e)]
+            pplain = judged(perrs, sel)
             st.counters['identity_errors_skipped'] += len(perrs) - len(pplain)
             got = Counter(errsig(e) for e in pplain)
             wrong_decl = sorted('%s: %s instead of %s' % (nodes[i].local, lab(x), lab(governing.get(i)))
@@ -501,7 +580,7 @@ def analyse(name, doc):
                     if want != e.path and not (want or '').endswith((e.path or '').lstrip('/')):
                         disc('error-path', path, flabel, 'differs', 'error path %r in the partial run, %r in '
                              'the whole-document run' % (e.path, want))
-            if pvalid != (not exp) and not (len(perrs) != len(pplain)):
+            if pvalid != (not exp) and len(perrs) == len(pplain) and not unjudged_exp:
                 disc('is_valid', path, flabel, str(pvalid), 'is_valid(path=%r) is %s; the selected subtree(s) '
                      'carry %d error(s) in the whole-document run' % (path, pvalid, sum(exp.values())))
                 st.outcomes['is_valid:DISC'] += 1
@@ -526,7 +605,7 @@ def analyse(name, doc):
                 disc('decode-' + conv, path, flabel, type(e).__name__, 'decode(path=%r) raises %r' % (path, e))
                 st.outcomes['partial-data:exception'] += 1
                 continue
-            got = Counter(errsig(e) for e in perr2 if not is_identity_error(e))
+            got = Counter(errsig(e) for e in judged(perr2, sel))
             if got != exp:
                 o, w = diff(exp, got)
                 if ('errors', o) not in reported:
@@ -767,15 +846,131 @@ def analyse(name, doc):
     return discs, st
 
 
+# --- twins: the same paths on two documents that bind the same prefixes to different namespaces -----------------
+
+def analyse_pair(tname, doc):
+    """The document (variant q) and its twin (variant q2: other target namespace, same prefix / default-namespace
+    spelling) are processed back-to-back in both orders with the same path strings (own path with and without
+    positions, absolute and relative); every result is judged against the whole-document result of its own document.
+    Paths whose schema lookup is already wrong in isolation (reported by analyse) are skipped."""
+    st = Stats()
+    discs = []
+    ctxs = []
+    for variant, ns, xml in (('q', g.TNS, doc['xml']),
+                             ('q2', g.TNS2, doc['xml'].replace('"%s"' % g.TNS, '"%s"' % g.TNS2))):
+        c = Stats()
+        c.variant = variant
+        c.schema = load_schema('%s.%s' % (tname, variant))[0]
+        c.nodes = g.ref_tree(xml)
+        c.resource = xmlschema.XMLResource(xml)
+        c.elems = [e for e in c.resource.root.iter() if isinstance(e.tag, str)]
+        c.index = {id(e): i for i, e in enumerate(c.elems)}
+        c.gov = {}
+        errs = list(c.schema.iter_errors(c.resource, extra_validator=lambda e, x, c=c: c.gov.setdefault(c.index.get(id(e)), x)))
+        c.has_ident = any(is_identity_error(e) for e in errs)
+        c.sigs = [(type(e).__name__, e.reason or '', c.index.get(id(e.elem), -1)) for e in errs if not is_identity_error(e)]
+        c.forms = ns_forms(c.nodes, {'t': ns}, xml)
+        c.data = {f[0]: c.schema.decode(c.resource, validation='lax', namespaces=f[2])[0] for f in c.forms}
+        st.traces += 1 + len(c.forms)
+        ctxs.append(c)
+    a, b = ctxs
+    if len(a.nodes) != len(b.nodes) or [f[0] for f in a.forms] != [f[0] for f in b.forms]:
+        raise RuntimeError('twins differ in shape: %s' % doc['docid'])
+    seen = set()
+    for k in range(len(a.nodes)):
+        for label in ('pos', 'nopos'):
+            for fi, (flabel, pre, nsarg, _j) in enumerate(a.forms):
+                steps = {c.variant: g.path_forms(c.nodes[k])[label] for c in ctxs}
+                for rel in (False, True):
+                    path = (g.render_path(steps['q'][1:], pre, absolute=False) or '.') if rel else g.render_path(steps['q'], pre)
+                    if (path, flabel) in seen:
+                        continue
+                    seen.add((path, flabel))
+                    sels, usable = {}, True
+                    for c in ctxs:
+                        sel, work = g.walk_path(c.nodes, steps[c.variant])
+                        st.transitions += work
+                        sels[c.variant] = sel
+                        x = c.gov.get(sel[0])
+                        try:
+                            got = c.schema.get_element(c.elems[sel[0]].tag, g.render_path(steps[c.variant], c.forms[fi][1]),
+                                                       c.forms[fi][2]) if c.forms[fi][2] is not None else x
+                        except Exception:      # noqa
+                            got = None
+                        if x is None or got is None or res(got) is not res(x) or any(c.gov.get(i) is None for i in sel):
+                            usable = False
+                    if not usable:
+                        st.counters['twins: path already wrong or not governed in isolation: skipped'] += 1
+                        continue
+                    for order in ((a, b), (b, a)):
+                        for pos, c in enumerate(order):
+                            sel = sels[c.variant]
+                            nsa = c.forms[fi][2]
+                            tag = '%s-%s' % (c.variant, ('first', 'second')[pos])
+                            st.ev += 3
+                            st.traces += 3
+                            try:
+                                perrs = list(c.schema.iter_errors(c.resource, path=path, namespaces=nsa))
+                                pvalid = c.schema.is_valid(c.resource, path=path, namespaces=nsa)
+                                pdata, derrs = c.schema.decode(c.resource, path=path, namespaces=nsa, validation='lax')
+                            except Exception as e:      # noqa
+                                discs.append(_pair_disc(tname, 'seq-exception', path, flabel, '%s:%s' % (tag, type(e).__name__),
+                                                        '%s: %s raises %r for path %r' % (doc['docid'], tag, e, path)))
+                                continue
+                            exp = Counter()
+                            for i in sel:
+                                n = c.nodes[i]
+                                exp.update(s for s in c.sigs if n.i <= s[2] < n.end)
+                            for api, es in (('iter_errors', perrs), ('decode-errors', derrs)):
+                                got = Counter((type(e).__name__, e.reason or '', c.index.get(id(e.elem), -1))
+                                              for e in es if not is_identity_error(e))
+                                if got != exp:
+                                    discs.append(_pair_disc(tname, 'seq-' + api, path, flabel,
+                                                            '%s:missing=%d,extra=%d' % (tag, bool(exp - got), bool(got - exp)),
+                                                            '%s: %s(path=%r) on the %s document (%s) after its twin: %d error(s), the '
+                                                            'whole-document run has %d in the selected subtree(s)'
+                                                            % (doc['docid'], api, path, c.variant, tag, sum(got.values()), sum(exp.values()))))
+                                    st.outcomes['twins-errors:DISC'] += 1
+                                else:
+                                    st.outcomes['twins-errors:agree-%s' % ('empty' if not exp else 'nonempty')] += 1
+                            if not c.has_ident and pvalid != (not exp):
+                                discs.append(_pair_disc(tname, 'seq-is_valid', path, flabel, '%s:%s' % (tag, pvalid),
+                                                        '%s: is_valid(path=%r) on the %s document (%s) is %s; %d error(s) expected'
+                                                        % (doc['docid'], path, c.variant, tag, pvalid, sum(exp.values()))))
+                                st.outcomes['twins-is_valid:DISC'] += 1
+                            try:
+                                wants = [strip_top_default(sub_default(c.data[flabel], g.chain(c.nodes[i]))) for i in sel]
+                            except (Nav, KeyError, IndexError, TypeError):
+                                st.counters['data restriction not computable (faulty neighbourhood)'] += 1
+                                continue
+                            gotd = [strip_top_default(pdata)] if len(sel) == 1 else \
+                                ([strip_top_default(x) for x in pdata] if isinstance(pdata, list) and len(pdata) == len(sel) else None)
+                            if gotd != wants:
+                                discs.append(_pair_disc(tname, 'seq-decode', path, flabel,
+                                                        '%s:%s' % (tag, tkind(gotd[0], wants[0]) if gotd else 'shape-of-result'),
+                                                        '%s: decode(path=%r) on the %s document (%s) gives %s; whole-document result: %s'
+                                                        % (doc['docid'], path, c.variant, tag, short(pdata, 200), short(wants, 200))))
+                                st.outcomes['twins-data:DISC'] += 1
+                            else:
+                                st.outcomes['twins-data:agree'] += 1
+    return discs, st
+
+
+def _pair_disc(tname, kind, path, form, observed, what):
+    shape = _PREFIX.sub('P:', _POS.sub('[i]', path))
+    return 'C20|%s.q+q2|%s|%s|%s|%s' % (tname, kind, shape, form, observed), what
+
+
 # --- runner interface -------------------------------------------------------------------------------------------
 
 def run_shard(shard, acc):
     tier, seed, name, lo, hi = shard
-    docs = documents(name, tier, seed)[lo:hi]
+    pair = name.startswith('PAIR:')
+    docs = (pair_documents(name[5:], tier, seed) if pair else documents(name, tier, seed))[lo:hi]
     first = {}
     for doc in docs:
         with acc.guard(300):
-            discs, st = analyse(name, doc)
+            discs, st = analyse_pair(name[5:], doc) if pair else analyse(name, doc)
         acc.ev(st.ev)
         acc.st(transitions=st.transitions, traces=st.traces)
         for k, v in st.outcomes.items():
@@ -811,7 +1006,10 @@ def finish(tier, seed, acc):
 def replay(case):
     doc = {'docid': case['docid'], 'xml': case['xml'], 'govs': case.get('govs'), 'valid': case.get('valid', False),
            'size': 0}
-    discs, _ = analyse(case['schema'], doc)
+    if case['schema'].startswith('PAIR:'):
+        discs, _ = analyse_pair(case['schema'][5:], doc)
+    else:
+        discs, _ = analyse(case['schema'], doc)
     want = case.get('want')
     if want and any(k == want for k, _ in discs):
         return [(k, w) for k, w in discs if k == want]
